@@ -77,6 +77,20 @@ pub fn gen_ops(rng: &mut Rng, n: usize, conflict_bias: bool) -> Vec<DOp> {
 /// `gen_ops` plus index-set changes over the populated collection.
 pub fn gen_ops_reindex(rng: &mut Rng, n: usize, conflict_bias: bool) -> Vec<DOp> {
     let mut ops = gen_ops(rng, n, conflict_bias);
+    if rng.chance(1, 4) {
+        // flush-heavy regime: most mutations meet a fully checkpointed collection,
+        // so watermark / dirty-tracking decisions of the *next* flush are exercised
+        // one mutation at a time
+        let mut v = Vec::with_capacity(ops.len() * 2);
+        for op in ops {
+            let mutation = matches!(op, DOp::Add(_) | DOp::Update { .. } | DOp::Remove { .. } | DOp::SaveExt { .. } | DOp::RemoveExt { .. });
+            v.push(op);
+            if mutation && rng.chance(2, 3) {
+                v.push(DOp::Flush);
+            }
+        }
+        ops = v;
+    }
     // index create (+ backfill) / remove over a populated collection
     if rng.chance(2, 5) {
         let at = rng.range(1, ops.len() as u64) as usize;
